@@ -59,6 +59,9 @@ fn is_false(b: &bool) -> bool {
 fn is_zero(b: &u8) -> bool {
     *b == 0
 }
+fn is_zero_usize(v: &usize) -> bool {
+    *v == 0
+}
 fn is_zero32(v: &u32) -> bool {
     *v == 0
 }
@@ -354,6 +357,12 @@ pub struct Scenario {
     /// stores its own registration number there, reads it back and reads `removed()`
     #[serde(default, skip_serializing_if = "is_false")]
     pub probe: bool,
+    /// tuning knob (hook): length of the text decoder's buffer; 0 = the built-in 1024
+    #[serde(default, skip_serializing_if = "is_zero_usize")]
+    pub text_buf: usize,
+    /// tuning knob (hook): the text decoder's ASCII/UTF-8 fast path is switched off
+    #[serde(default, skip_serializing_if = "is_false")]
+    pub no_fast_text: bool,
 }
 
 impl Scenario {
@@ -379,6 +388,8 @@ impl Scenario {
             send: false,
             blind: false,
             probe: false,
+            text_buf: 0,
+            no_fast_text: false,
         }
     }
 
